@@ -47,8 +47,12 @@ func (m *Machine) sumOfSeq(kind string, w int, seq []*Term) *Term {
 		}
 	}
 	v := m.newVar(fmt.Sprintf("%s_%d", kind, len(m.crcs)), w)
-	v.isSum = true
-	v.sums = []*Term{v}
+	termMu.Lock()
+	if !v.isSum { // the interned variable is shared by all workers: set once
+		v.isSum = true
+		v.sums = []*Term{v}
+	}
+	termMu.Unlock()
 	ns := &idealSum{v: v, kind: kind, seq: seq, key: k, allConst: allConst}
 	m.crcs = append(m.crcs, ns)
 	m.sumOf[v] = ns
